@@ -394,11 +394,64 @@ def edit_histories(acc, source, spec, payload):
     nr = Feature("NewRoot9", [])
     nr.add_relation(Relation(nr, [m.root], 1, 1))
     finish("re-rooted", FeatureModel(nr, list(m.ctcs)))
+    # (6) a feature grafted from another model: its old parent there has the SAME NAME as its new parent here
+    m = fresh()
+    other = S.build(spec)
+    feats, rels, owner, parent = walk(m)
+    of, orels, oowner, oparent = walk(other)
+    cand = [f for f in of if oparent[id(f)] is not None and not f.relations]
+    if cand:
+        g = r.choice(cand)
+        twin_parent = next(f for f in feats if f.name == oparent[id(g)].name)
+        for rel in list(oparent[id(g)].relations):
+            if any(c is g for c in rel.children):
+                rel.children.remove(g)
+                if not rel.children:
+                    oparent[id(g)].relations.remove(rel)
+        g.name = "Grafted9"
+        twin_parent.add_relation(Relation(twin_parent, [g], 0, 1))
+        finish("grafted-from-same-named-parent", m)
     # (5) a new root assigned on the same FeatureModel object; the old tree's names must be gone
     m = fresh()
     old_names = [f.name for f in walk(m)[0]]
     m.root = Feature("Lonely9", [])
     finish("root-replaced", m, old_names)
+
+
+def ctc_listing_history(acc, spec, payload):
+    """Constraint-kind listings asked, one expression tree edited IN PLACE (node attributes, no setter), listings
+    asked again: every listing must be what FRESH Constraint objects built from the current trees report."""
+    from flamapy.core.models.ast import AST
+    from flamapy.metamodels.fm_metamodel.models import Constraint
+    logical = [k for k, c in enumerate(spec["ctcs"]) if isinstance(c["ast"], list) and S.is_logical_ast(c["ast"])
+               and S.ast_depth(c["ast"]) <= 3]
+    if not logical:
+        return
+    r = rand.rng("c03-ctc-edit", S.digest(spec))
+    m = S.build(spec)
+    getters = ("get_simple_constraints", "get_complex_constraints", "get_requires_constraints", "get_excludes_constraints",
+               "get_pseudocomplex_constraints", "get_strictcomplex_constraints", "get_logical_constraints")
+    try:
+        for g in getters:
+            getattr(m, g)()
+        k = r.choice(logical)
+        if S.inplace_edit_ast(m.ctcs[k].ast, spec["ctcs"][k]["ast"], r, S.feature_names(spec)) is None:
+            return
+        cur = [S.obs_ast(c.ast.root) for c in m.ctcs]
+        fresh = [Constraint(c.name, AST(S.build_ast(a))) for c, a in zip(m.ctcs, cur)]
+        for g in getters:
+            pred = g.replace("get_", "is_").replace("_constraints", "_constraint")
+            want = [i for i, fc in enumerate(fresh) if getattr(fc, pred)()]
+            got = [i for i, c in enumerate(m.ctcs) if any(c is x for x in getattr(m, g)())]
+            if got != want:
+                acc.fail("history:ast-edited-in-place", "constraint-listing", "FeatureModel." + g, [], "stale-listing",
+                         f"after an in-place edit of constraint {k} ({cur[k]}): listed {got}, fresh constraints give {want}",
+                         dict(payload, history="ast node edited in place"))
+                return
+        acc.held("history:ast-edited-in-place", S.digest(["ctc-edit", spec]))
+    except Exception as e:  # noqa: BLE001
+        acc.fail("history:ast-edited-in-place", "no-exception", "constraint-listings", [], f"raises:{type(e).__name__}",
+                 str(e)[:200], payload)
 
 
 def run_case(acc, source, spec, path, seed=0):
@@ -454,6 +507,9 @@ def run_case(acc, source, spec, path, seed=0):
                 acc.fail(cls, clause, where, [], "disagrees-with-tree", msg, payload, key)
         else:
             acc.held(cls, key)
+    if source in ("random", "formula-pool") and spec is not None and spec.get("ctcs") and S.digest(spec)[0] in "0123456":
+        sub = dict(spec, ctcs=spec["ctcs"][:12])
+        ctc_listing_history(acc, sub, payload)
     if source in ("shape", "random") and spec is not None and S.digest(spec)[0] in "01" and len(S.feature_names(spec)) <= 60:
         edit_histories(acc, source, {"root": spec["root"], "ctcs": []}, payload)
     if len(acc.samples) < 3 and source == "random":
